@@ -322,4 +322,238 @@ theorem dtor_spec (P : Params) (n0 : Nat) (S : Nat → Bool) (m : Map) (hS : ∀
     apply SafeF.pure
     simp
 
+/-! ### copy constructor -/
+
+def copyTail (o : Map) (k v s : Nat) : M Map := do
+  let os ← deref o.states
+  loopUp (fun i => do let w ← readWord os i; writeWord s i w) (2 ^ o.lgCur) 0
+  pure { o with keys := some k, values := some v, states := some s }
+
+theorem copyCtor_eq (o : Map) : copyCtor o =
+    (alloc .item (2 ^ o.lgCur) >>= fun k => alloc .u64 (2 ^ o.lgCur) >>= fun v => alloc .u16 (2 ^ o.lgCur) >>= fun s =>
+      if o.numActive > 0 then (do
+        let ok ← deref o.keys
+        let ov ← deref o.values
+        let os ← deref o.states
+        copyLoop ok ov os k v (2 ^ o.lgCur) 0 o.numActive
+        copyTail o k v s)
+      else copyTail o k v s) := rfl
+
+theorem copyLoop_succ (ok ov os k v f i num : Nat) : copyLoop ok ov os k v (f + 1) i num = (do
+    let st ← readWord os i
+    if st > 0 then
+      copyConstruct ok i k i
+      let w ← readWord ov i
+      writeWord v i w
+      if num - 1 = 0 then pure () else copyLoop ok ov os k v f (i + 1) (num - 1)
+    else copyLoop ok ov os k v f (i + 1) num) := rfl
+
+/-- key slot `j` of the copy matches the activity `a j` of the source -/
+def KS (a : Nat → Bool) (h : Heap) (k j : Nat) : Prop :=
+  (a j = true → ∃ x, stAt h k j = .live x) ∧ (a j = false → stAt h k j = .raw)
+
+theorem copyLoop_spec (n0 : Nat) (S : Nat → Bool) (ok ov os k v n : Nat) (hSk : S k = true) (hSv : S v = true) (h3 : Heap)
+    (T : Tbl true [] h3 ok ov os n) (hkv : k ≠ v) (hk : k ∉ [ok, ov, os]) (hv : v ∉ [ok, ov, os]) :
+    ∀ f i num, f + i = n → TripleS n0 S
+      (fun h => SameBut [k, v] h3 h ∧ HasCells h k n ∧ HasCells h v n ∧ (∀ j, stAt h v j = .raw) ∧
+        (∀ j, j < i → KS (act h3 os) h k j) ∧ (∀ j, i ≤ j → stAt h k j = .raw) ∧
+        cnt (act h3 os) n = cnt (act h3 os) i + num)
+      (copyLoop ok ov os k v f i num)
+      (fun _ h => SameBut [k, v] h3 h ∧ HasCells h k n ∧ HasCells h v n ∧ (∀ j, stAt h v j = .raw) ∧
+        ∀ j, j < n → KS (act h3 os) h k j) := by
+  simp only [List.mem_cons, List.not_mem_nil, or_false, not_or] at hk hv
+  intro f
+  induction f with
+  | zero =>
+    intro i num hfi h _ ⟨sb, ck, cv, rv, hks, _, _⟩
+    apply SafeF.pure
+    exact ⟨sb, ck, cv, rv, fun j hj => hks j (by omega)⟩
+  | succ f ih =>
+    intro i num hfi h hn ⟨sb, ck, cv, rv, hks, hraw, hcnt⟩
+    have hi : i < n := by omega
+    rw [copyLoop_succ]
+    have eos : h.find? os = h3.find? os := sb.out os (by simp; exact ⟨fun e => hk.2.2 e.symm, fun e => hv.2.2 e.symm⟩)
+    have eov : h.find? ov = h3.find? ov := sb.out ov (by simp; exact ⟨fun e => hk.2.1 e.symm, fun e => hv.2.1 e.symm⟩)
+    have eok : h.find? ok = h3.find? ok := sb.out ok (by simp; exact ⟨fun e => hk.1 e.symm, fun e => hv.1 e.symm⟩)
+    obtain ⟨cs, ecs, ews, _⟩ := (HasCells_congr eos T.cs).cell_st hi
+    rw [wordAt_congr eos] at ews
+    apply step_readWord ecs
+    have hslot := T.slot i hi (by simp)
+    by_cases hw : cs.word > 0
+    · rw [if_pos hw]
+      obtain ⟨x, hx⟩ := hslot.live_of_pos (by omega)
+      have hx' : stAt h ok i = .live x := by rw [stAt_congr eok]; exact hx
+      obtain ⟨cok, ecok, estok, _⟩ := cell_of_stAt_ne_raw (h := h) (b := ok) (i := i) (by rw [hx']; simp)
+      obtain ⟨ck0, eck0, _, estk0⟩ := ck.cell_st hi
+      have hai : act h3 os i = true := by simp [act]; omega
+      have hc1 : cnt (act h3 os) (i + 1) = cnt (act h3 os) i + 1 := by rw [cnt_succ, hai]; rfl
+      have hmono := cnt_mono (act h3 os) (by omega : i + 1 ≤ n)
+      apply step_copyConstruct ecok (by rw [estok, hx']) eck0 (by rw [estk0]; exact hraw i (Nat.le_refl _)) hSk
+      intro ev
+      obtain ⟨cov, ecov, _, _⟩ := (HasCells_congr eov T.cv).cell_st hi
+      have ecov' : ((h.setCell k i { ck0 with st := .live x }).addLog ev).cell? ov i = some cov := by
+        rw [cell?_addLog, cell?_setCell_ne _ _ _ _ (fun hh => hk.2.1 hh.1.symm)]; exact ecov
+      apply step_readWord ecov'
+      obtain ⟨cv0, ecv0, _, _⟩ := cv.cell_st hi
+      have ecv0' : ((h.setCell k i { ck0 with st := .live x }).addLog ev).cell? v i = some cv0 := by
+        rw [cell?_addLog, cell?_setCell_ne _ _ _ _ (fun hh => hkv hh.1.symm)]; exact ecv0
+      apply step_writeWord _ ecv0' hSv
+      have sb' : SameBut [k, v] h3 (((h.setCell k i { ck0 with st := .live x }).addLog ev).setCell v i
+          { cv0 with word := cov.word }) := ((sb.setCell _ _ (by simp)).addLog _).setCell _ _ (by simp)
+      have ck' := HasCells_setCell v i { cv0 with word := cov.word }
+        (HasCells_addLog ev (HasCells_setCell k i { ck0 with st := .live x } ck))
+      have cv' := HasCells_setCell v i { cv0 with word := cov.word }
+        (HasCells_addLog ev (HasCells_setCell k i { ck0 with st := .live x } cv))
+      have stk : ∀ j, stAt (((h.setCell k i { ck0 with st := .live x }).addLog ev).setCell v i
+          { cv0 with word := cov.word }) k j = if j = i then .live x else stAt h k j := by
+        intro j
+        rw [stAt_setCell_word _ ecv0', stAt_addLog]
+        by_cases hji : j = i
+        · subst hji; rw [stAt_setCell_eq _ eck0]; simp
+        · rw [stAt_setCell_ne _ _ _ _ (fun hh => hji hh.2)]; simp [hji]
+      have rv' : ∀ j, stAt (((h.setCell k i { ck0 with st := .live x }).addLog ev).setCell v i
+          { cv0 with word := cov.word }) v j = .raw := by
+        intro j
+        rw [stAt_setCell_word _ ecv0', stAt_addLog, stAt_setCell_ne _ _ _ _ (fun hh => hkv hh.1.symm)]; exact rv j
+      have hks' : ∀ j, j < i + 1 → KS (act h3 os) (((h.setCell k i { ck0 with st := .live x }).addLog ev).setCell v i
+          { cv0 with word := cov.word }) k j := by
+        intro j hj
+        unfold KS
+        rw [stk j]
+        by_cases hji : j = i
+        · subst hji; simp [hai]
+        · simp only [hji, if_false]; exact hks j (by omega)
+      have hraw' : ∀ j, i + 1 ≤ j → stAt (((h.setCell k i { ck0 with st := .live x }).addLog ev).setCell v i
+          { cv0 with word := cov.word }) k j = .raw := by
+        intro j hj
+        rw [stk j, if_neg (by omega)]; exact hraw j (by omega)
+      by_cases hnum : num - 1 = 0
+      · rw [if_pos hnum]
+        apply SafeF.pure
+        refine ⟨sb', ck', cv', rv', ?_⟩
+        intro j hj
+        by_cases hji : j < i + 1
+        · exact hks' j hji
+        · have hfalse := cnt_eq_imp_false (f := act h3 os) (m := i + 1) (n := n) (by omega) (by omega) j (by omega) hj
+          exact ⟨fun ht => (by rw [hfalse] at ht; cases ht), fun _ => hraw' j (by omega)⟩
+      · rw [if_neg hnum]
+        exact ih (i + 1) (num - 1) (by omega) _ (by simpa using hn) ⟨sb', ck', cv', rv', hks', hraw', by omega⟩
+    · rw [if_neg hw]
+      have hw0 : wordAt h3 os i = 0 := by omega
+      have hai : act h3 os i = false := by simp [act, hw0]
+      have hc1 : cnt (act h3 os) (i + 1) = cnt (act h3 os) i := by rw [cnt_succ, hai]; rfl
+      refine ih (i + 1) num (by omega) h hn ⟨sb, ck, cv, rv, ?_, fun j hj => hraw j (by omega), by omega⟩
+      intro j hj
+      by_cases hji : j = i
+      · subst hji
+        exact ⟨fun ht => (by rw [hai] at ht; cases ht), fun _ => hraw j (Nat.le_refl _)⟩
+      · exact hks j (by omega)
+
+theorem copyTail_spec (P : Params) (n0 : Nat) (S : Nat → Bool) (o : Map) (ok ov os k v s : Nat) (hSs : S s = true) (h3 : Heap)
+    (hos : o.states = some os) (T : Tbl true [] h3 ok ov os (2 ^ o.lgCur)) (hlg : P.lgMinMap ≤ o.lgCur)
+    (hcap : o.numActive ≤ getCapacity P o.lgCur + 1) (hna : o.numActive = cnt (act h3 os) (2 ^ o.lgCur))
+    (cs3 : HasCells h3 s (2 ^ o.lgCur)) (rs3 : ∀ j, stAt h3 s j = .raw)
+    (hkv : k ≠ v) (hks : k ≠ s) (hvs : v ≠ s) (hk : k ∉ [ok, ov, os]) (hv : v ∉ [ok, ov, os]) (hs : s ∉ [ok, ov, os])
+    (ltk : k < h3.next) (ltv : v < h3.next) (lts : s < h3.next) :
+    TripleS n0 S
+      (fun h => SameBut [k, v] h3 h ∧ HasCells h k (2 ^ o.lgCur) ∧ HasCells h v (2 ^ o.lgCur) ∧ (∀ j, stAt h v j = .raw) ∧
+        ∀ j, j < 2 ^ o.lgCur → KS (act h3 os) h k j)
+      (copyTail o k v s)
+      (fun m' h' => Usable P h' m' ∧ m' = { o with keys := some k, values := some v, states := some s } ∧
+        SameBut [k, v, s] h3 h') := by
+  simp only [List.mem_cons, List.not_mem_nil, or_false, not_or] at hk hv hs
+  intro h hn ⟨sb, ck, cv, rv, hKS⟩
+  unfold copyTail
+  rw [hos]
+  apply step_deref
+  have eos : h.find? os = h3.find? os := sb.out os (by simp; exact ⟨fun e => hk.2.2 e.symm, fun e => hv.2.2 e.symm⟩)
+  have es : h.find? s = h3.find? s := sb.out s (by simp; exact ⟨fun e => hks e.symm, fun e => hvs e.symm⟩)
+  apply SafeF.bind_triple (copyWords_spec n0 S os s (2 ^ o.lgCur) hSs (fun e => hs.2.2 e.symm) h (HasCells_congr es cs3)
+    (HasCells_congr eos T.cs)) hn rfl
+  intro _ h' ⟨sb', cs', rs', hw'⟩ _
+  apply SafeF.pure
+  have ek' : h'.find? k = h.find? k := sb'.out k (by simp; exact hks)
+  have ev' : h'.find? v = h.find? v := sb'.out v (by simp; exact hvs)
+  have hact : ∀ j, j < 2 ^ o.lgCur → act h' s j = act h3 os j := by
+    intro j hj
+    simp only [act, hw' j hj, wordAt_congr eos]
+  refine ⟨?_, rfl, ?_⟩
+  · refine InvG.mk_some (k := k) (v := v) (s := s) rfl rfl rfl hlg hcap ?_ ?_
+    · refine ⟨HasCells_congr ek' ck, HasCells_congr ev' cv, cs', hkv, hks, hvs, ?_, ?_, ?_, ?_, ?_, ?_⟩
+      · rw [sb'.next, sb.next]; exact ltk
+      · rw [sb'.next, sb.next]; exact ltv
+      · rw [sb'.next, sb.next]; exact lts
+      · intro j; rw [stAt_congr ev']; exact rv j
+      · intro j; rw [rs' j, stAt_congr es]; exact rs3 j
+      · intro j hj _
+        have hks := hKS j hj
+        have ha := hact j hj
+        unfold KS at hks
+        rw [← stAt_congr ek'] at hks
+        cases hb : act h3 os j with
+        | true =>
+          obtain ⟨x, hx⟩ := hks.1 hb
+          rw [hb] at ha
+          exact SlotOK.active (by simpa [act] using ha) hx
+        | false =>
+          rw [hb] at ha
+          exact SlotOK.inactive (by simpa [act] using ha) (hks.2 hb)
+    · show o.numActive = cnt (act h' s) (2 ^ o.lgCur)
+      rw [hna]
+      exact (cnt_congr hact).symm
+  · refine ⟨by rw [sb'.next, sb.next], by rw [sb'.ids, sb.ids], ?_⟩
+    intro b hb
+    simp only [List.mem_cons, List.not_mem_nil, or_false, not_or] at hb
+    rw [sb'.out b (by simp; exact hb.2.2), sb.out b (by simp; exact ⟨hb.1, hb.2.1⟩)]
+
+/-- copy constructor, for any footprint that contains the new blocks -/
+theorem copyCtor_spec (P : Params) (n0 : Nat) (S : Nat → Bool) (hS : ∀ b, n0 ≤ b → S b = true) (o : Map) (h0 : Heap) :
+    TripleS n0 S (fun h => h = h0 ∧ Usable P h o) (copyCtor o)
+      (fun m' h' => Usable P h' m' ∧
+        m' = { o with keys := some h0.next, values := some (h0.next + 1), states := some (h0.next + 2) } ∧
+        h'.ids = (h0.next + 2) :: (h0.next + 1) :: h0.next :: h0.ids ∧ h'.next = h0.next + 3 ∧
+        ∀ b, b < h0.next → h'.find? b = h0.find? b) := by
+  intro h hn ⟨he, hu⟩
+  subst he
+  obtain ⟨ok, ov, os, hok, hov, hos, _, T, hc⟩ := Usable.ptrs hu
+  rw [copyCtor_eq]
+  apply step_alloc3 _ (fun b hb => hS b (by omega))
+  have F := alloc3_fresh h (2 ^ o.lgCur)
+  generalize alloc3 h (2 ^ o.lgCur) = h3 at F
+  have T3 : Tbl true [] h3 ok ov os (2 ^ o.lgCur) :=
+    T.local (F.old _ T.ltk) (F.old _ T.ltv) (F.old _ T.lts) (by rw [F.next]; omega)
+  have hc3 : o.numActive = cnt (act h3 os) (2 ^ o.lgCur) := by rw [act_congr (F.old _ T.lts)]; exact hc
+  have ltk := T.ltk; have ltv := T.ltv; have lts := T.lts
+  have hk : h.next ∉ [ok, ov, os] := by simp; omega
+  have hv : h.next + 1 ∉ [ok, ov, os] := by simp; omega
+  have hs : h.next + 2 ∉ [ok, ov, os] := by simp; omega
+  have tail := copyTail_spec P n0 S o ok ov os h.next (h.next + 1) (h.next + 2) (hS _ (by omega)) h3 hos T3 hu.lg hu.cap hc3
+    F.cs F.rs (by omega) (by omega) (by omega) hk hv hs (by rw [F.next]; omega) (by rw [F.next]; omega) (by rw [F.next]; omega)
+  have fin : ∀ (m' : Map) (h' : Heap), (Usable P h' m' ∧
+      m' = { o with keys := some h.next, values := some (h.next + 1), states := some (h.next + 2) } ∧
+      SameBut [h.next, h.next + 1, h.next + 2] h3 h') →
+      (Usable P h' m' ∧ m' = { o with keys := some h.next, values := some (h.next + 1), states := some (h.next + 2) } ∧
+        h'.ids = (h.next + 2) :: (h.next + 1) :: h.next :: h.ids ∧ h'.next = h.next + 3 ∧
+        ∀ b, b < h.next → h'.find? b = h.find? b) := by
+    intro m' h' ⟨a, b, sb⟩
+    refine ⟨a, b, by rw [sb.ids, F.ids], by rw [sb.next, F.next], ?_⟩
+    intro x hx
+    rw [sb.out x (by simp; omega), F.old x hx]
+  by_cases hna : o.numActive > 0
+  · rw [if_pos hna, hok, hov, hos]
+    apply step_deref
+    apply step_deref
+    apply step_deref
+    apply SafeF.bind_triple (copyLoop_spec n0 S ok ov os h.next (h.next + 1) (2 ^ o.lgCur) (hS _ (by omega)) (hS _ (by omega))
+      h3 T3 (by omega) hk hv (2 ^ o.lgCur) 0 o.numActive rfl) (by rw [F.next]; omega)
+      ⟨SameBut.refl _ _, F.ck, F.cv, F.rv, fun j hj => by omega, fun j _ => F.rk j, by simp [cnt, hc3]⟩
+    intro _ h4 post hn4
+    exact SafeF.mono (tail h4 (by rw [F.next] at hn4; omega) post) fin
+  · rw [if_neg hna]
+    have h0' : cnt (act h3 os) (2 ^ o.lgCur) = 0 := by omega
+    refine SafeF.mono (tail h3 (by rw [F.next]; omega) ⟨SameBut.refl _ _, F.ck, F.cv, F.rv, ?_⟩) fin
+    intro j hj
+    have := cnt_eq_zero_imp h0' j hj
+    exact ⟨fun ht => (by rw [this] at ht; cases ht), fun _ => F.rk j⟩
+
 end DS.Life.Fi
